@@ -115,6 +115,7 @@ theorem Sys.putCtr_th_other (s : Sys) (t t2 : Nat) (c : Ctr) (h : t2 ≠ t) :
 @[simp] theorem Sys.withG_reporterReady (s : Sys) (g : Ghost) : (s.withG g).reporterReady = s.reporterReady := rfl
 @[simp] theorem Sys.withG_adapters (s : Sys) (g : Ghost) : (s.withG g).adapters = s.adapters := rfl
 @[simp] theorem Sys.withG_deferred (s : Sys) (g : Ghost) : (s.withG g).deferred = s.deferred := rfl
+@[simp] theorem Sys.withG_carried (s : Sys) (g : Ghost) : (s.withG g).carried = s.carried := rfl
 @[simp] theorem Sys.withG_g (s : Sys) (g : Ghost) : (s.withG g).g = g := rfl
 @[simp] theorem Sys.withG_ctr (s : Sys) (g : Ghost) (t : Nat) : (s.withG g).ctr t = s.ctr t := rfl
 @[simp] theorem Sys.setTh_g (s : Sys) (t : Nat) (th : Th) : (s.setTh t th).g = s.g := rfl
